@@ -645,6 +645,136 @@ def r13_5(ctx):
               "Segment.cell_length is no longer `0 if is_control else cell_len(text)`")
 
 
+def r13_8(ctx):
+    ctx.rule("R13.8", "set_cell_size crop loop keeps the invariant `cells(kept characters) - excess == total`: excess starts at cell_len(text) - total over the per-character size list of the whole string, each iteration removes exactly one trailing size from the list and from excess, the loop runs while excess > 0, the result is the prefix of as many characters as sizes remain plus one space exactly when excess == -1 (sizes are at most 2 by R13.1/R13.2, so excess ends in {0, -1}) => the result has exactly `total` cells and is a prefix of the original followed by spaces")
+    f = ctx.repo.fn("cells:set_cell_size")
+    text_p, total_p = f.params[0], f.params[1]
+    aliases = alias_map(f.node)
+    m = f.module
+    sizes = None
+    for n in walk_local(f.node):
+        if isinstance(n, ast.Assign) and isinstance(n.value, ast.ListComp) and len(n.value.generators) == 1:
+            ge = n.value.generators[0]
+            el = n.value.elt
+            if norm(ge.iter) == text_p and not ge.ifs and isinstance(el, ast.Call) and norm(expand_alias(el.func, aliases)) == "get_character_cell_size" and len(el.args) == 1 and norm(el.args[0]) == norm(ge.target):
+                sizes = norm(n.targets[0])
+    ctx.check(sizes is not None, f.fq, "character_sizes = [size(c) for c in text]", f.where, "one cell size per character of the whole string", "set_cell_size no longer builds the list of per-character cell sizes of its whole argument")
+    if sizes is None:
+        return
+    g = cfgmod.build(f.node)
+    rd = g.reaching_defs(weak=False)
+    loops = [n for n in walk_local(f.node) if isinstance(n, ast.While)]
+    ctx.check(len(loops) == 1, f.fq, "while excess > 0 and character_sizes", f.where, "one crop loop", f"{len(loops)} loops in set_cell_size (expected the single crop loop)")
+    if len(loops) != 1:
+        return
+    lp = loops[0]
+    t = lp.test
+    conj = [norm(x) for x in (t.values if isinstance(t, ast.BoolOp) and isinstance(t.op, ast.And) else [t])]
+    exv = None
+    for c in conj:
+        if c.endswith(" > 0"):
+            exv = c[:-4]
+    ok = exv is not None and sizes in conj
+    ctx.check(ok, f.fq, f"while {norm(t)}", f"{m.relpath}:{lp.lineno}", "loop runs while cells are still in excess and characters remain",
+              f"crop loop condition `{norm(t)}` is not `excess > 0 and {sizes}`: it stops early (result too wide) or removes one character too many")
+    if exv is None:
+        return
+    # initial value of excess
+    init_ok = False
+    for nid in g.nodes_of(lp):
+        for d in rd.get(nid, {}).get(exv, set()):
+            ds = g.nodes[d].stmt
+            if isinstance(ds, ast.Assign):
+                form = lin(ds.value)
+                meas = [k for k in form if k not in ("", total_p)]
+                if form.get(total_p) == -1 and len(meas) == 1 and form[meas[0]] == 1 and "" not in form:
+                    mv = meas[0]
+                    for _hop in range(4):
+                        if mv == f"cell_len({text_p})":
+                            break
+                        nxt = [norm(x.value) for x in walk_local(f.node) if isinstance(x, ast.Assign) and len(x.targets) == 1 and norm(x.targets[0]) == mv]
+                        if len(nxt) != 1:
+                            break
+                        mv = nxt[0]
+                    if mv == f"cell_len({text_p})":
+                        init_ok = True
+    ctx.check(init_ok, f.fq, f"{exv} = cell_len(text) - total", f"{m.relpath}:{lp.lineno}", "excess starts as measured cells minus requested cells", f"`{exv}` is not initialised to cell_len({text_p}) - {total_p}")
+    body = [b for b in lp.body]
+    okb = len(body) == 1 and isinstance(body[0], ast.AugAssign) and isinstance(body[0].op, ast.Sub) and norm(body[0].target) == exv and isinstance(body[0].value, ast.Call) and not body[0].value.args and norm(expand_alias(body[0].value.func, aliases)) == f"{sizes}.pop"
+    ctx.check(okb, f.fq, " ; ".join(norm(b) for b in body), f"{m.relpath}:{lp.lineno}", "each step drops the last character's size from the list and from excess (invariant kept)",
+              f"the loop body is not exactly `{exv} -= {sizes}.pop()`: the removed cells and the removed characters get out of step")
+    # after the loop: prefix of len(sizes) characters
+    after = [n for n in walk_local(f.node) if isinstance(n, ast.Assign) and norm(n.targets[0]) == text_p and isinstance(n.value, ast.Subscript) and n.lineno > lp.lineno]
+    okp = len(after) == 1 and isinstance(after[0].value.slice, ast.Slice) and after[0].value.slice.lower is None and after[0].value.slice.upper is not None and norm(after[0].value.slice.upper) == f"len({sizes})" and norm(after[0].value.value) == text_p
+    ctx.check(okp, f.fq, norm(after[0]) if after else "?", f"{m.relpath}:{lp.lineno}", "kept text = as many leading characters as sizes remain", f"the kept text is not `{text_p}[:len({sizes})]`")
+
+
+def r13_9(ctx):
+    ctx.rule("R13.9", "chop_cells places every character exactly once, in order, and starts a new piece exactly when the next character would overflow: characters are popped from the reversed (char, size) list of the whole string, both branches append the popped character once, the running size is reset to that character's size on a new piece and increased by it otherwise, the test is `running + size > max_size`, pieces are joined in order")
+    f = ctx.repo.fn("cells:chop_cells")
+    m = f.module
+    text_p, max_p, pos_p = f.params[0], f.params[1], f.params[2]
+    aliases = alias_map(f.node)
+    src = norm(f.node)
+    chars = None
+    for n in walk_local(f.node):
+        if isinstance(n, ast.Assign) and isinstance(n.value, ast.Subscript) and isinstance(n.value.value, ast.ListComp) and norm(n.value.slice) == "::-1":
+            lc = n.value.value
+            ge = lc.generators[0]
+            if norm(ge.iter) == text_p and not ge.ifs and isinstance(lc.elt, ast.Tuple) and norm(lc.elt.elts[0]) == norm(ge.target) and isinstance(lc.elt.elts[1], ast.Call) and norm(expand_alias(lc.elt.elts[1].func, aliases)) == "get_character_cell_size":
+                chars = norm(n.targets[0])
+    ctx.check(chars is not None, f.fq, "characters = [(c, size(c)) for c in text][::-1]", f.where, "every character of the argument with its size, reversed for popping from the end", "chop_cells no longer builds the reversed list of (character, size) over its whole argument")
+    if chars is None:
+        return
+    loops = [n for n in walk_local(f.node) if isinstance(n, ast.While) and norm(n.test) == chars]
+    ctx.check(len(loops) == 1, f.fq, f"while {chars}", f.where, "loop until every character is placed", "chop_cells does not loop until the character list is empty")
+    if not loops:
+        return
+    lp = loops[0]
+    first = lp.body[0]
+    okf = isinstance(first, ast.Assign) and isinstance(first.targets[0], ast.Tuple) and isinstance(first.value, ast.Call) and norm(expand_alias(first.value.func, aliases)) == f"{chars}.pop" and not first.value.args
+    ch, sz = (norm(e) for e in first.targets[0].elts) if okf else ("character", "size")
+    ctx.check(okf, f.fq, norm(first), f"{m.relpath}:{first.lineno}", "next character taken from the end of the reversed list (original order)", "characters are not taken one by one from the end of the reversed list")
+    ifs = [b for b in lp.body if isinstance(b, ast.If)]
+    ctx.check(len(ifs) == 1, f.fq, "overflow test", f"{m.relpath}:{lp.lineno}", "one overflow test per character", "chop_cells loop has no single overflow test")
+    if not ifs:
+        return
+    iff = ifs[0]
+    tot = None
+    t = iff.test
+    okt = isinstance(t, ast.Compare) and len(t.ops) == 1 and isinstance(t.ops[0], ast.Gt) and norm(t.comparators[0]) == max_p and isinstance(t.left, ast.BinOp) and isinstance(t.left.op, ast.Add) and sz in (norm(t.left.left), norm(t.left.right))
+    if okt:
+        tot = norm(t.left.left) if norm(t.left.right) == sz else norm(t.left.right)
+    ctx.check(okt, f.fq, f"if {norm(t)}", f"{m.relpath}:{iff.lineno}", "new piece exactly when running size + this character exceeds max_size",
+              f"overflow test `{norm(t)}` is not `running + {sz} > {max_p}`: a piece can exceed the width, or characters that fit exactly are pushed to the next piece")
+    if tot is None:
+        return
+
+    def appends(body):
+        out = 0
+        for b in body:
+            if not isinstance(b, (ast.Expr, ast.Assign)):
+                continue  # only unconditional statements of the branch count
+            for c in ast.walk(b):
+                if isinstance(c, ast.Call) and c.args:
+                    fn = norm(expand_alias(c.func, aliases))
+                    if fn.endswith(".append") and (norm(c.args[0]) == ch or norm(c.args[0]) == f"[{ch}]"):
+                        out += 1
+                    elif isinstance(c.func, ast.Name) and c.func.id == "append" and norm(c.args[0]) == ch:
+                        out += 1
+        return out
+
+    ctx.check(appends(iff.body) == 1 and appends(iff.orelse) == 1, f.fq, "append(character) in both branches", f"{m.relpath}:{iff.lineno}", "the popped character is placed exactly once whichever branch runs",
+              f"the popped character is appended {appends(iff.body)} time(s) on overflow and {appends(iff.orelse)} time(s) otherwise: characters are dropped or duplicated")
+    new_ok = any(isinstance(b, ast.Assign) and norm(b.targets[0]) == tot and norm(b.value) == sz for b in iff.body)
+    same_ok = any(isinstance(b, ast.AugAssign) and isinstance(b.op, ast.Add) and norm(b.target) == tot and norm(b.value) == sz for b in iff.orelse)
+    ctx.check(new_ok and same_ok, f.fq, f"{tot} = {sz} / {tot} += {sz}", f"{m.relpath}:{iff.lineno}", "running size restarts at the character's size on a new piece and grows by it otherwise",
+              "the running size is not reset to the character's size on a new piece / increased by it otherwise: later pieces overflow or are cut short")
+    ctx.check(any(isinstance(n, ast.Assign) and norm(n.targets[0]) == tot and norm(n.value) == pos_p for n in walk_local(f.node)), f.fq, f"{tot} = {pos_p}", f.where, "running size starts at the given position", f"the running size does not start at `{pos_p}`")
+    rets = [r for r in walk_local(f.node) if isinstance(r, ast.Return)]
+    ctx.check(len(rets) == 1 and norm(rets[0].value) == "[''.join(line) for line in lines]", f.fq, norm(rets[0]) if rets else "?", f.where, "pieces returned in order", "chop_cells does not return the pieces joined in order")
+
+
 CELL_PARAMS = {
     "cells:set_cell_size": {"total"},
     "cells:chop_cells": {"max_size", "position"},
@@ -746,4 +876,4 @@ def r13_6(ctx):
     memo_rule(ctx, "R13.6", ["cells", "_lru_cache", "segment"], 2)
 
 
-RULES = [r13_1, r13_2, r13_3, r13_4, r13_5, r13_6, r13_7]
+RULES = [r13_1, r13_2, r13_3, r13_4, r13_5, r13_6, r13_7, r13_8, r13_9]
